@@ -158,9 +158,18 @@ func f20ExpectedFmt(ps []f20Fpiece) (exp, lits string, ok bool) {
 	return e.String(), l.String(), true
 }
 
+// The statement's side condition speaks of "a colour token". Fmt's {c}/{clear} emits the
+// bare colour introducer \x03, so a digit after it is a colour number too ("{c}5" ->
+// "\x035", which every client and StripRaw read as colour 5). Reading the side condition
+// without {c}/{clear} would demand StripRaw("\x035") = "5" while the same statement demands
+// that the colour sequence "\x035" be removed: only the reading that counts {c}/{clear}
+// among the colour tokens is satisfiable, and it is the one the theorem C20_strip_fmt and
+// this oracle use. Inputs of that shape are still run and carry the signature
+// clear-then-digit.
+
 // f20Colourish: a token after which a digit or comma would be read as part of a colour
-// sequence (colour names, pairs, and {c}/{clear} whose code is the bare \x03).
-func f20Colourish(p f20Fpiece) bool {
+// sequence (colour names, pairs, and - when clear - {c}/{clear} whose code is the bare \x03).
+func f20Colourish(p f20Fpiece, clear bool) bool {
 	switch p.kind {
 	case 'P':
 		return true
@@ -169,15 +178,15 @@ func f20Colourish(p f20Fpiece) bool {
 		if _, ok := docColors[n]; ok {
 			return true
 		}
-		return docCodes[n] == "\x03"
+		return clear && docCodes[n] == "\x03"
 	}
 	return false
 }
 
-// f20SpacedOK: no text following a f20Colourish token starts with a digit or a comma.
-func f20SpacedOK(ps []f20Fpiece) bool {
+// f20SpacedOK: no text following a colour(ish) token starts with a digit or a comma.
+func f20SpacedOK(ps []f20Fpiece, clear bool) bool {
 	for i, p := range ps {
-		if !f20Colourish(p) {
+		if !f20Colourish(p, clear) {
 			continue
 		}
 		rest := f20RenderPieces(ps[i+1:])
@@ -537,11 +546,15 @@ func f20RunFmt(c Case) Result {
 		res.Oracle = fmt.Sprintf("fmt-token: Fmt(%q) = %q, the documented sequences give %q", text, out, exp)
 	case f20HasAny(st, fmtCtrl):
 		res.Oracle = fmt.Sprintf("strip-leftover: StripRaw(Fmt(%q)) = %q still holds a control byte", text, st)
-	case valid && !f20HasAny(lits, fmtCtrl) && f20SpacedOK(ps) && st != lits:
+	case valid && !f20HasAny(lits, fmtCtrl) && f20SpacedOK(ps, true) && st != lits:
 		res.Oracle = fmt.Sprintf("strip-fmt: StripRaw(Fmt(%q)) = %q, the literal pieces are %q", text, st, lits)
 	}
-	if valid && !f20HasAny(lits, fmtCtrl) && f20SpacedOK(ps) {
-		res.Sig += "/strip-law"
+	if valid && !f20HasAny(lits, fmtCtrl) {
+		if f20SpacedOK(ps, true) {
+			res.Sig += "/strip-law"
+		} else if f20SpacedOK(ps, false) {
+			res.Sig += "/clear-then-digit"
+		}
 	}
 	return res
 }
@@ -781,7 +794,7 @@ func init() {
 		Name: "fmt.strip",
 		Prop: []string{"C20"},
 		Fixed: func() []Case {
-			all := allStringsUpTo("\x03019"+"5,x\x02", 5) // 37 449 strings
+			all := allStringsUpTo("\x03019"+"5,x\x02", 6) // 299 593 strings
 			out := make([]Case, 0, len(all)+16)
 			for _, s := range all {
 				out = append(out, Case{s})
@@ -790,7 +803,7 @@ func init() {
 				Case{"\x0304,x"}, Case{"\x03\x0315"}, Case{fmtCtrl}, Case{"\x02bold\x02 \x1ditalic\x1d \x1ful\x1f \x16rev\x16 \x0freset \x01ACTION\x01"})
 			return out
 		},
-		Exhaustive: "all 37 449 byte strings of length <= 5 over {0x03, '0', '1', '9', '5', ',', 'x', 0x02}",
+		Exhaustive: "all 299 593 byte strings of length <= 6 over {0x03, '0', '1', '9', '5', ',', 'x', 0x02}",
 		Gen:        genStripCase,
 		Run:        f20RunStrip,
 	})
